@@ -487,11 +487,13 @@ def lru_cache_with_expiry(
         for k in expired_keys:
             del cache[k]
 
-        # Check if result is cached
-        if key in cache:
+        # Check if result is cached; a concurrent caller may have stored an entry computed
+        # before our sweep, so the entry is read once and its age is checked here as well
+        entry = cache.get(key)
+        if entry is not None and current_time - entry[0] <= valid_for_seconds:
             # Move the accessed item to the end to maintain LRU order
             cache.move_to_end(key)
-            return cache[key][1]
+            return entry[1]
 
         # Call the function and cache the result
         result = func(*args, **kwargs)
